@@ -202,7 +202,10 @@ class Ctx:
             elif line.startswith("SIG"):
                 self.signatures.add(line[4:])
         if hrc != 0:
-            self.broken.append((f"harness {label} exited {hrc}", herr[-2000:]))
+            # the harness died (assertion, sanitizer, signal): its last record is truncated, so what the driver derived from the
+            # tail of the stream is not evidence; the death itself is the broken obligation (with the stderr as detail)
+            self.broken.append((f"harness {label} exited {hrc}", herr[-2000:] + "\n[driver lines discarded: " + " | ".join(l[:160] for l in (diffs + oracle)[-3:]) + "]"))
+            diffs, oracle = [], []
         if dp.returncode not in (0, 1) or not summary:
             self.broken.append((f"driver {label} exited {dp.returncode}", out[-2000:]))
         if diffs:
